@@ -45,8 +45,9 @@ class C17(RecorderProp):
     RULE = ('the full decision table skipped x rate {0, 1/4, 1, 3/2} x forced x ignore-forcing x discard (before / after the force '
             'request) x outcome {return, raise, interrupt} x draw {below, EQUAL to, above the rate} exhaustively with a scripted '
             'draw source; seeded histories with the recorder\'s OWN Random(seed): the same seed twice, pairs differing only in '
-            'operation content and outcome, mixed classes with forcing in one run; storage-level sampling of the S3 cassette '
-            'with a size-based calculator; non-trivial = a recording scope was opened; distinct = distinct canonical case')
+            'operation content and outcome, mixed classes (one an unconfigured subclass of a configured class) with forcing in one run; '
+            'storage-level sampling of the S3 cassette with a size-based calculator, ordered / random-order lookups through the same '
+            'cassette between the saves (they consume nothing of the sampling stream); non-trivial = a recording scope was opened; distinct = distinct canonical case')
     N = {'quick': 3, 'thorough': 40}
     HIST = {'quick': 300, 'thorough': 2000}
     TIME_BUDGET = {'quick': 240, 'thorough': 3000}
